@@ -172,11 +172,11 @@ func (self *visitorUserNode) OnNull() error {
 		self.inskip = false
 		return nil
 	}
-	// self.stk[self.sp].val = &visitorUserNull{}
-	if err := self.incrSP(); err != nil {
-		return err
+	// a null member is omitted (a null map value leaves the entry with its key only, a null list element is skipped)
+	if self.globalFieldDesc != nil {
+		return self.onValueEnd()
 	}
-	return self.onValueEnd()
+	return nil
 }
 
 func (self *visitorUserNode) OnBool(v bool) error {
